@@ -19,6 +19,28 @@ verus! {
 //@include prelude/rt.rs
 //@source yui-matrix/src/sparse/pivot.rs
 
+// ---------------------------------------------------------------- text of the ASSUMED parts, pinned: a change there makes this unit UNDECIDED (exit 2), not silently stale
+// the dispatcher of the parallel phase: snapshot, catch up, init, critical section; the table returns to the finder afterwards
+//@expect std::mem::take(&mut self.pivots)
+//@expect remain_rows.par_iter().for_each(|&i| {
+//@expect pivots.read().unwrap().clone()
+//@expect loc_pivots.update_from(&pivots.read().unwrap()); w.init(i, &self.str, &loc_pivots); self.find_cycle_free_pivots_in(&pivots, &mut loc_pivots, &mut w);
+//@expect self.pivots = pivots.into_inner().unwrap();
+//@expect if #[cfg(feature = "multithread")] { self.find_cycle_free_pivots_m(); } else { self.find_cycle_free_pivots_s(); }
+// remain_rows, occupied_cols
+//@expect let piv_rows: AHashSet<_> = self.pivots.iter().map(|(i, _)| i).collect();
+//@expect (0 .. m).filter(|&i| !piv_rows.contains(&i) && !self.str.is_empty_row(i) ).sorted_by(|&i1, &i2| self.str.cmp_rows(i1, i2) )
+//@expect self.pivots.iter().fold(AHashSet::new(), |mut res, (i, _)| { for &j in self.str.cols_in(i) { res.insert(j); } res })
+// MatrixStr::new
+//@expect for (i, j, r) in a.iter() { if r.is_zero() { continue } let (i, j) = t(i, j); entries[i].push(j);
+//@expect if pivot_cond.is_cand(r) { cands[i].insert(j); }
+// result
+//@expect let list = self.str.cols_in(i).filter(|&&j2| j != j2 && self.pivots.has_col(j2) ).copied().collect_vec(); (j, list)
+//@expect let sorted = top_sort(tree).unwrap();
+//@expect let i = self.pivots.row_for(j).unwrap(); if is_row_type { (i, j) } else { (j, i) }
+// the entry point
+//@expect let mut pf = PivotFinder::new(a, piv_type, pivot_cond); pf.find_pivots(); pf.result()
+
 pub type Row = usize;
 pub type Col = usize;
 
@@ -60,6 +82,11 @@ impl<'a, T> VIter<'a, T> {
 #[derive(PartialEq, Eq, Structural, Clone, Copy)]
 //@item enum/EntryStatus
 //@item struct/RowWorker subst=AHashSet<Col>:ASet
+#[derive(PartialEq, Eq, Structural, Clone, Copy)]
+//@item enum/PivotType
+
+/// the pivot condition (One / Weight(w) / AnyUnit): a predicate on ring elements, evaluated by MatrixStr::new only -- OPAQUE here
+pub struct PivotCondition { pub c: Ghost<int> }
 
 // ---------------------------------------------------------------- specification
 pub open spec fn nrows(s: MatrixStr) -> int { s.shape.0 as int }
@@ -180,6 +207,11 @@ pub proof fn lemma_added_wf(s: MatrixStr, p: PivotData, p2: PivotData, i: int, j
 
 // ---------------------------------------------------------------- MatrixStr accessors
 impl MatrixStr {
+    /// ASSUMED (reads the matrix through nalgebra-sparse's CSC triplet iterator, f64 weights, the PivotCondition test on ring elements):
+    /// the structure lists, per row (per column for PivotType::Cols), the positions of the non-zero entries once each and in increasing order
+    #[verifier::external_body] fn new(a: &SpMat, piv_type: PivotType, pivot_cond: PivotCondition) -> (r: MatrixStr)
+        ensures str_wf(r), str_sorted(r), r.shape == (if piv_type == PivotType::Rows { (a.sh@.0, a.sh@.1) } else { (a.sh@.1, a.sh@.0) }),
+    { unimplemented!() }
     fn shape(&self) -> (r: (usize, usize)) ensures r == self.shape,
     //@body impl/MatrixStr/shape
     fn is_empty_row(&self, i: Row) -> (r: bool)
@@ -202,8 +234,18 @@ impl MatrixStr {
     #[verifier::external_body] fn cmp_cols(&self, j1: Col, j2: Col) -> core::cmp::Ordering { unimplemented!() }
 }
 
+// ---------------------------------------------------------------- the matrix, by its shape only (entries are read by MatrixStr::new alone, which is ASSUMED)
+pub struct SpMat { pub sh: Ghost<(usize, usize)> }
+impl SpMat {
+    #[verifier::external_body] pub fn nrows(&self) -> (r: usize) ensures r == self.sh@.0 { unimplemented!() }
+    #[verifier::external_body] pub fn ncols(&self) -> (r: usize) ensures r == self.sh@.1 { unimplemented!() }
+}
+
 // ---------------------------------------------------------------- PivotData
 impl PivotData {
+    fn new(a: &SpMat, piv_type: PivotType) -> (r: PivotData)
+        ensures r.data@.len() == (if piv_type == PivotType::Rows { a.sh@.1 } else { a.sh@.0 }), r.indices@.len() == 0, forall|j: int| !has_col(r, j),
+    //@body impl/PivotData/new vec_elem=usize
     fn count(&self) -> (r: usize) ensures r == self.indices@.len(),
     //@body impl/PivotData/count
     fn has_col(&self, j: Col) -> (r: bool)
@@ -817,8 +859,6 @@ pub fn lock_release_(lk: &PLock, g: &PivotData, Ghost(g0): Ghost<PivotData>, Gho
 { unimplemented!() }
 
 // ---------------------------------------------------------------- PivotFinder
-#[derive(PartialEq, Eq, Structural, Clone, Copy)]
-//@item enum/PivotType
 //@item struct/PivotFinder
 //@item const/LOG_THRESHOLD
 
@@ -846,7 +886,92 @@ pub open spec fn rows_ok(s: MatrixStr, p: PivotData, v: Seq<usize>, from: int) -
     &&& forall|k: int, l: int| 0 <= k < l < v.len() ==> v[k] != v[l]
 }
 
+/// rows list their columns in strictly increasing order
+pub open spec fn str_sorted(s: MatrixStr) -> bool { forall|i: int, k: int, l: int| 0 <= i < nrows(s) && 0 <= k < l < ent(s, i).len() ==> #[trigger] ent(s, i)[k] < #[trigger] ent(s, i)[l] }
+/// every pivot is the leading entry of its row
+pub open spec fn all_heads(s: MatrixStr, p: PivotData) -> bool { forall|c: int| has_col(p, c) ==> ent(s, #[trigger] prow(p, c)).len() > 0 && ent(s, prow(p, c))[0] == c }
+/// occ contains every column of every pivot row
+pub open spec fn occ_ok(s: MatrixStr, p: PivotData, occ: Set<usize>) -> bool { forall|c0: int, e: int| has_col(p, c0) && 0 <= e < pent(s, p, c0).len() ==> occ.contains(#[trigger] pent(s, p, c0)[e]) }
+
+/// phase 1 commit: (i, j) with j the leading column of row i, j not yet a pivot column
+pub proof fn lemma_fl_add(s: MatrixStr, p: PivotData, p2: PivotData, i: int, j: int)
+    requires pf_inv(s, p), str_sorted(s), all_heads(s, p), added(p, p2, i, j), !has_col(p, j), 0 <= i < nrows(s), !is_piv_row(p, i),
+        ent(s, i).len() > 0, ent(s, i)[0] == j, is_cand(s, i, j),
+    ensures pf_inv(s, p2), all_heads(s, p2), extends(p2, p), forall|c: int| has_col(p2, c) <==> (c == j || has_col(p, c)), forall|c: int| has_col(p, c) ==> prow(p2, c) == prow(p, c), prow(p2, j) == i,
+{
+    assert(row_has(s, i, j));
+    lemma_added_wf(s, p, p2, i, j);
+    let q = |c: int| has_col(p, c) && c > j;
+    assert forall|c: int, c2: int| q(c) && #[trigger] edge(s, p, c, c2) implies q(c2) by {
+        let e = choose|e: int| 0 <= e < ent(s, prow(p, c)).len() && #[trigger] ent(s, prow(p, c))[e] == c2;
+        assert(ent(s, prow(p, c))[0] == c); if e > 0 { assert(ent(s, prow(p, c))[0] < ent(s, prow(p, c))[e]); }
+    }
+    assert forall|c2: int| has_col(p, c2) && #[trigger] row_has(s, i, c2) implies q(c2) by {
+        let e = choose|e: int| 0 <= e < ent(s, i).len() && #[trigger] ent(s, i)[e] == c2;
+        if e > 0 { assert(ent(s, i)[0] < ent(s, i)[e]); }
+    }
+    assert forall|c: int| q(c) implies !row_has(s, #[trigger] prow(p, c), j) by {
+        if row_has(s, prow(p, c), j) {
+            let e = choose|e: int| 0 <= e < ent(s, prow(p, c)).len() && #[trigger] ent(s, prow(p, c))[e] == j;
+            assert(ent(s, prow(p, c))[0] == c); if e > 0 { assert(ent(s, prow(p, c))[0] < ent(s, prow(p, c))[e]); }
+        }
+    }
+    lemma_add_pivot(s, p, p2, i, j, q);
+    assert forall|c: int| has_col(p2, c) implies ent(s, #[trigger] prow(p2, c)).len() > 0 && ent(s, prow(p2, c))[0] == c by { if c != j { assert(has_col(p, c)); assert(prow(p2, c) == prow(p, c)); } }
+}
+pub proof fn lemma_not_occ_not_piv(s: MatrixStr, p: PivotData, occ: Set<usize>, j: int)
+    requires pf_inv(s, p), occ_ok(s, p, occ), 0 <= j < ncols(s), !occ.contains(j as usize)
+    ensures !has_col(p, j)
+{
+    if has_col(p, j) { assert(row_has(s, prow(p, j), j)); let e = choose|e: int| 0 <= e < ent(s, prow(p, j)).len() && #[trigger] ent(s, prow(p, j))[e] == j; assert(occ.contains(pent(s, p, j)[e])); }
+}
+/// phase 2 commit: (i, j) with j a candidate of row i that occurs in no pivot row
+pub proof fn lemma_flcol_add(s: MatrixStr, p: PivotData, p2: PivotData, i: int, j: int, occ: Set<usize>)
+    requires pf_inv(s, p), occ_ok(s, p, occ), added(p, p2, i, j), 0 <= j < ncols(s), !occ.contains(j as usize), 0 <= i < nrows(s), !is_piv_row(p, i), is_cand(s, i, j), row_has(s, i, j),
+    ensures pf_inv(s, p2), extends(p2, p), !has_col(p, j), forall|c: int| has_col(p2, c) <==> (c == j || has_col(p, c)), forall|c: int| has_col(p, c) ==> prow(p2, c) == prow(p, c), prow(p2, j) == i,
+{
+    assert(!has_col(p, j)) by {
+        if has_col(p, j) { assert(row_has(s, prow(p, j), j)); let e = choose|e: int| 0 <= e < ent(s, prow(p, j)).len() && #[trigger] ent(s, prow(p, j))[e] == j; assert(occ.contains(pent(s, p, j)[e])); }
+    }
+    lemma_added_wf(s, p, p2, i, j);
+    let q = |c: int| has_col(p, c);
+    assert forall|c: int| q(c) implies !row_has(s, #[trigger] prow(p, c), j) by {
+        if row_has(s, prow(p, c), j) { let e = choose|e: int| 0 <= e < ent(s, prow(p, c)).len() && #[trigger] ent(s, prow(p, c))[e] == j; assert(occ.contains(pent(s, p, c)[e])); }
+    }
+    lemma_add_pivot(s, p, p2, i, j, q);
+}
+/// after committing on row v[pos], the later rows are still free
+pub proof fn lemma_rows_step(s: MatrixStr, p: PivotData, p2: PivotData, v: Seq<usize>, pos: int, j: int)
+    requires rows_ok(s, p, v, pos), 0 <= pos < v.len(), forall|c: int| has_col(p2, c) <==> (c == j || has_col(p, c)), forall|c: int| has_col(p, c) ==> prow(p2, c) == prow(p, c), prow(p2, j) == v[pos] as int,
+    ensures rows_ok(s, p2, v, pos + 1)
+{
+    assert forall|k: int| pos + 1 <= k < v.len() implies (#[trigger] v[k]) < nrows(s) && !is_piv_row(p2, v[k] as int) by {
+        if is_piv_row(p2, v[k] as int) {
+            let c = choose|c: int| has_col(p2, c) && #[trigger] prow(p2, c) == v[k] as int;
+            if c != j { assert(has_col(p, c)); assert(prow(p, c) == v[k] as int); assert(is_piv_row(p, v[k] as int)); }
+            else { assert(v[pos] != v[k]); }
+        }
+    }
+}
+
 impl PivotFinder {
+    pub fn new(a: &SpMat, piv_type: PivotType, pivot_cond: PivotCondition) -> (r: PivotFinder)
+        ensures pf_inv(r.str, r.pivots), str_sorted(r.str), all_heads(r.str, r.pivots), r.pivots.indices@.len() == 0, r.piv_type == piv_type,
+    //@body impl/PivotFinder/new
+    //@+ post
+    //@| lemma_acyclic_empty(str, pivots);
+    /// phase 3 = find_cycle_free_pivots_m with the default feature `multithread` (its critical section is verified below, its rayon / thread-local
+    /// dispatcher is ASSUMED to call it as the preconditions there describe), find_cycle_free_pivots_s otherwise (verified below).  The body is a
+    /// cfg_if! switch between the two.
+    #[verifier::external_body] fn find_cycle_free_pivots(&mut self)
+        requires pf_inv(old(self).str, old(self).pivots),
+        ensures pf_inv(final(self).str, final(self).pivots), final(self).str == old(self).str, extends(final(self).pivots, old(self).pivots),
+    { unimplemented!() }
+    /// all three phases: the table handed to `result` satisfies pf_inv -- distinct rows and columns, pivot condition, acyclic dependency graph
+    pub fn find_pivots(&mut self)
+        requires pf_inv(old(self).str, old(self).pivots), str_sorted(old(self).str), all_heads(old(self).str, old(self).pivots),
+        ensures pf_inv(final(self).str, final(self).pivots), final(self).str == old(self).str,
+    //@body impl/PivotFinder/find_pivots
     fn rows(&self) -> (r: Row) ensures r == self.str.shape.0,
     //@body impl/PivotFinder/rows
     fn cols(&self) -> (r: Col) ensures r == self.str.shape.1,
@@ -931,6 +1056,91 @@ impl PivotFinder {
     //@| lemma_cong(*w, s0, pivots, *loc_pivots);
     //@+ after-call set#0
     //@| lemma_ready_add(*w, s0, g0, pivots, j as int);
+
+    /// phase 1: rows whose leading column is free.  Relies on rows listing their columns in increasing order (ASSUMED of MatrixStr::new:
+    /// the CSC iteration order of the matrix); then the leading column is the least one and the pivots are triangular as they stand.
+    fn find_fl_pivots(&mut self)
+        requires pf_inv(old(self).str, old(self).pivots), str_sorted(old(self).str), all_heads(old(self).str, old(self).pivots),
+        ensures pf_inv(final(self).str, final(self).pivots), final(self).str == old(self).str, extends(final(self).pivots, old(self).pivots),
+    //@body impl/PivotFinder/find_fl_pivots for_iter=1 loops=1 subst=Vec:RowVec
+    //@+ loop 0 header
+    //@| for i in remain_rows
+    //@+ pre-raw
+    //@| let ghost s0 = self.str; let ghost p0 = self.pivots;
+    //@+ loop 0
+    //@| invariant self.str == s0, pf_inv(s0, self.pivots), str_sorted(s0), all_heads(s0, self.pivots), extends(self.pivots, p0), 0 <= __it0.pos@ <= __it0.es@.len(),
+    //@|     rows_ok(s0, self.pivots, __it0.es@, __it0.pos@),
+    //@| ensures __it0.pos@ == __it0.es@.len(),
+    //@| decreases __it0.es@.len() - __it0.pos@,
+    //@+ loop 0 begin-raw
+    //@| let ghost p1 = self.pivots; let ghost pos1 = __it0.pos@ - 1;
+    //@+ loop 0 begin
+    //@| assert(i == __it0.es@[pos1]);
+    //@+ after-call set#0
+    //@| lemma_fl_add(s0, p1, self.pivots, i as int, j as int);
+    //@| lemma_rows_step(s0, p1, self.pivots, __it0.es@, pos1, j as int);
+    //@| assert(extends(self.pivots, p0));
+
+    /// ASSUMED (fold over PivotData::iter with an AHashSet accumulator): every column occurring in a pivot row
+    #[verifier::external_body] fn occupied_cols(&self) -> (r: ASet)
+        requires str_wf(self.str), piv_wf(self.str, self.pivots),
+        ensures occ_ok(self.str, self.pivots, r.v()),
+    { unimplemented!() }
+
+    /// phase 2: a candidate column that occurs in no pivot row
+    fn find_fl_col_pivots(&mut self)
+        requires pf_inv(old(self).str, old(self).pivots),
+        ensures pf_inv(final(self).str, final(self).pivots), final(self).str == old(self).str, extends(final(self).pivots, old(self).pivots),
+    //@body impl/PivotFinder/find_fl_col_pivots for_iter=1 loops=4 subst=Vec:RowVec vec_elem=usize
+    //@+ loop 0 header
+    //@| for i in remain_rows
+    //@+ loop 1 header
+    //@| for &j in self.str.cols_in(i)
+    //@+ loop 2 header
+    //@| cands.into_iter().sorted_by(|&j1, &j2|
+    //@+ loop 3 header
+    //@| for &j in self.str.cols_in(i)
+    //@+ pre-raw
+    //@| let ghost s0 = self.str; let ghost p0 = self.pivots;
+    //@+ loop 0
+    //@| invariant self.str == s0, pf_inv(s0, self.pivots), extends(self.pivots, p0), 0 <= __it0.pos@ <= __it0.es@.len(),
+    //@|     rows_ok(s0, self.pivots, __it0.es@, __it0.pos@), occ_ok(s0, self.pivots, occ_cols.v()),
+    //@| ensures __it0.pos@ == __it0.es@.len(),
+    //@| decreases __it0.es@.len() - __it0.pos@,
+    //@+ loop 0 begin-raw
+    //@| let ghost p1 = self.pivots; let ghost pos1 = __it0.pos@ - 1; let ghost occ1 = occ_cols.v();
+    //@+ loop 0 begin
+    //@| assert(i == __it0.es@[pos1]);
+    //@+ loop 1
+    //@| invariant self.str == s0, str_wf(s0), i < nrows(s0), __it1.es@ == ent(s0, i as int), 0 <= __it1.pos@ <= __it1.es@.len(), occ_cols.v() == occ1,
+    //@|     forall|e: int| 0 <= e < cands@.len() ==> !occ1.contains(#[trigger] cands@[e]) && is_cand(s0, i as int, cands@[e] as int) && row_has(s0, i as int, cands@[e] as int),
+    //@| ensures __it1.pos@ == __it1.es@.len(),
+    //@| decreases __it1.es@.len() - __it1.pos@,
+    //@+ loop 1 begin
+    //@| assert(j == ent(s0, i as int)[__it1.pos@ - 1] && j < ncols(s0));
+    //@+ loop 2
+    //@| invariant __hi2 == __v2@.len(), __it2 <= __hi2,
+    //@|     __best2.is_some() ==> exists|e: int| 0 <= e < __v2@.len() && #[trigger] __v2@[e] == __best2.unwrap(),
+    //@+ after-let j
+    //@| let e = choose|e: int| 0 <= e < cands@.len() && #[trigger] cands@[e] == j;
+    //@| assert(!occ1.contains(j) && is_cand(s0, i as int, j as int) && row_has(s0, i as int, j as int));
+    //@| lemma_not_occ_not_piv(s0, p1, occ1, j as int);
+    //@+ after-call set#0
+    //@| lemma_flcol_add(s0, p1, self.pivots, i as int, j as int, occ1);
+    //@| lemma_rows_step(s0, p1, self.pivots, __it0.es@, pos1, j as int);
+    //@| assert(extends(self.pivots, p0));
+    //@+ loop 3
+    //@| invariant self.str == s0, str_wf(s0), i < nrows(s0), __it3.es@ == ent(s0, i as int), 0 <= __it3.pos@ <= __it3.es@.len(),
+    //@|     forall|c: usize| occ1.contains(c) ==> occ_cols.v().contains(c),
+    //@|     forall|e: int| 0 <= e < __it3.pos@ ==> occ_cols.v().contains(#[trigger] ent(s0, i as int)[e]),
+    //@| ensures __it3.pos@ == __it3.es@.len(),
+    //@| decreases __it3.es@.len() - __it3.pos@,
+    //@+ loop 3 after
+    //@| assert(occ_ok(s0, self.pivots, occ_cols.v())) by {
+    //@|     assert forall|c0: int, e: int| has_col(self.pivots, c0) && 0 <= e < pent(s0, self.pivots, c0).len() implies occ_cols.v().contains(#[trigger] pent(s0, self.pivots, c0)[e]) by {
+    //@|         if c0 != j as int { assert(has_col(p1, c0)); assert(pent(s0, self.pivots, c0) == pent(s0, p1, c0)); assert(occ1.contains(pent(s0, p1, c0)[e])); }
+    //@|     }
+    //@| }
 }
 
 } // verus!
